@@ -122,7 +122,8 @@ def build_font(r):
     subs: [(platform, encoding, format, [(cp, gid)...])])"""
     ng = r["ng"]
     tables = {}
-    head = struct.pack(">IIIIHHQQhhhhHHhhh", 0x00010000, 0, 0, 0x5F0F3CF5, 0, r["upem"], 0, 0, 0, 0, 0, 0, 0, 8, 2, 0, 0)
+    head = struct.pack(">IIIIHHQQhhhhHHhhh", 0x00010000, 0, 0, 0x5F0F3CF5, 0, r["upem"], 0, 0, 0, 0, 0, 0, 0, 8, 2,
+                       1 if r.get("bbox") is not None else 0, 0)
     tables[b"head"] = head
     nhm = len(r["hadv"]) if r["hadv"] is not None else 0
     tables[b"hhea"] = struct.pack(">IhhhHhhhhhhhhhhhH", 0x00010000, r["asc"], r["desc"], 0, 0, 0, 0, 0, 1, 0, 0, 0, 0, 0, 0, 0, nhm)
@@ -133,8 +134,21 @@ def build_font(r):
     if r["vadv"] is not None:
         nvm = len(r["vadv"])
         tables[b"vhea"] = struct.pack(">IhhhHhhhhhhhhhhhH", 0x00011000, 0, 0, 0, 0, 0, 0, 0, 1, 0, 0, 0, 0, 0, 0, 0, nvm)
-        tables[b"vmtx"] = (b"".join(struct.pack(">Hh", a, 0) for a in r["vadv"])
+        vsb = r.get("vsb") or []
+        tables[b"vmtx"] = (b"".join(struct.pack(">Hh", a, vsb[k] if k < len(vsb) else 0) for k, a in enumerate(r["vadv"]))
                            + b"".join(struct.pack(">h", 0) for _ in range(max(0, ng - nvm))))
+    if r.get("bbox") is not None:
+        # glyf / loca (long offsets): a glyph is either empty or a bare header (numberOfContours 0 + bbox) — all that
+        # face.rs::glyph_extents reads for an outline font without bitmaps / COLR
+        glyf, loca = b"", []
+        for g in range(ng):
+            loca.append(len(glyf))
+            bb = r["bbox"].get(g)
+            if bb is not None:
+                glyf += struct.pack(">hhhhhh", 0, bb[0], bb[1], bb[2], bb[3], 0)
+        loca.append(len(glyf))
+        tables[b"glyf"] = glyf if glyf else b"\0\0"
+        tables[b"loca"] = b"".join(struct.pack(">I", o) for o in loca)
     if r["vorg"] is not None:
         d, recs = r["vorg"]
         tables[b"VORG"] = struct.pack(">IhH", 0x00010000, d, len(recs)) + b"".join(
@@ -174,6 +188,12 @@ def recipe_token(r):
     else:
         d, recs = r["vorg"]
         f.append("o" + "/".join([str(d)] + [f"{g}={y}" for g, y in sorted(recs.items())]))
+    vsb = r.get("vsb") or []
+    f.append("s" + (".".join(map(str, vsb)) if vsb and r["vadv"] else "-"))
+    if r.get("bbox") is None:
+        f.append("b-")
+    else:
+        f.append("b" + "/".join(["x"] + [f"{g}={bb[1]}.{bb[3]}" for g, bb in sorted(r["bbox"].items()) if bb is not None]))
     if not r["subs"]:
         f.append("c-")
     else:
@@ -265,7 +285,7 @@ OTHER = [(0, 5), (3, 2), (3, 3), (1, 1), (3, 9), (0, 7)]
 
 
 def rand_recipe(r, alphabet, ng=None, nsubs=None, allow_mac=True, allow_symbol=True, vertical=None,
-                space=None, extra_missing=0):
+                space=None, extra_missing=0, outlines=False):
     """alphabet: code points that should (mostly) have glyphs.  Returns a recipe dict."""
     ng = ng or r.range(2, 40)
     k = r.below(6)
@@ -340,7 +360,18 @@ def rand_recipe(r, alphabet, ng=None, nsubs=None, allow_mac=True, allow_symbol=T
         if not pairs:
             pairs = {0x41: 1}
         subs.append((p, e, fmt, sorted(pairs.items())))
-    return dict(ng=ng, upem=upem, asc=asc, desc=desc, hadv=hadv, vadv=vadv, vorg=vorg, subs=subs)
+    # outline bounding boxes (glyf headers) and vertical side bearings: what glyph_v_origin falls back to without VORG
+    # (only where asked for: with outlines the fallback mark positioning, which is not modelled, starts to act on marks)
+    bbox = None
+    if outlines and r.chance(2, 3):
+        bbox = {}
+        for g in range(ng):
+            if r.chance(1, 5): continue                                   # empty glyph
+            ymin = r.choice([0, -200, -301, r.range(-32768, 32767), r.range(-1200, 200)])
+            ymax = r.choice([700, 800, 1500, r.range(-32768, 32767), r.range(0, 2500)])
+            bbox[g] = (r.range(-100, 100), ymin, r.range(100, 1000), ymax)
+    vsb = [r.choice([0, 0, 10, -50, r.range(-32768, 32767)]) for _ in (vadv or [])] if outlines and r.chance(1, 2) else None
+    return dict(ng=ng, upem=upem, asc=asc, desc=desc, hadv=hadv, vadv=vadv, vorg=vorg, subs=subs, bbox=bbox, vsb=vsb)
 
 
 def simple_recipe(alphabet, space=True, ng=None, adv=None, fmt=None, vertical=False):
